@@ -13,7 +13,16 @@ from .choices import Choices
 
 MIN_INT = np.iinfo(np.int64).min
 
-KEY_KINDS_QUICK = ["int", "float_nan", "str_object", "categorical", "datetime_nat", "bool", "str_u", "str_series", "int_neg"]
+
+def digest(obj) -> str:
+    """Stable digest of a JSON-able scenario (identical before and after a JSON round trip)."""
+    import hashlib
+    import json
+
+    return hashlib.blake2b(json.dumps(obj, sort_keys=True, default=str).encode(), digest_size=8).hexdigest()
+
+# kinds that can take the chunk-wise route appear twice: that is where strategies differ
+KEY_KINDS_QUICK = ["int", "float_nan", "str_object", "categorical", "datetime_nat", "bool", "str_u", "str_series", "int_neg", "float_nan", "datetime_nat", "int", "str_u"]
 NULLABLE = {"float_nan", "str_object", "categorical", "datetime_nat", "str_series"}
 ARROW_OK = {"int", "float_nan", "int_neg"}  # kinds whose keys can be given as a pyarrow.ChunkedArray
 
@@ -35,7 +44,7 @@ ARB_FLOATS = [0.1, np.nan, 1e-3, -3.7, 2.5e5, 1 / 3, -1e-7, 123.456, 9.99e5]
 # ---------------------------------------------------------------------------
 
 
-def gen_dataset(s: Choices, vdtype: str, tier: str, max_n: int = 200, allow_multi=True, key_kinds=None, max_cols=3):
+def gen_dataset(s: Choices, vdtype: str, tier: str, max_n: int = 200, allow_multi=True, key_kinds=None, max_cols=3, min_n=1):
     ds = {}
     kinds = key_kinds or KEY_KINDS_QUICK
     nkeys = 2 if (allow_multi and s.chance(1, 6)) else 1
@@ -61,7 +70,7 @@ def gen_dataset(s: Choices, vdtype: str, tier: str, max_n: int = 200, allow_mult
         n = 25 + s.draw(36)
     else:
         n = 61 + s.draw(max(1, max_n - 60))
-    n = min(n, max_n)
+    n = max(min(n, max_n), min_n)
     # rows: key code(s), value letter(s), mask bit  -- a fixed number of draws per row
     key_codes = [[] for _ in range(nkeys)]
     val_idx = [[] for _ in range(ncols)]
